@@ -2,7 +2,8 @@
    ExtrOcamlBasic only: bool/option/list/prod/unit/sumbool map to OCaml's;
    N, Z, positive, nat stay the extracted inductives. *)
 From Coq Require Import Extraction ExtrOcamlBasic.
-From Shroud Require Import Base.Ustr Model.Text Model.Splicer.
+From Shroud Require Import Base.Ustr Model.Text Model.Splicer Model.Scope Model.Options.
 Extraction Language OCaml.
 Extraction "model.ml" Text.write_continue Text.write_lines Ustr.lstrip Ustr.rstrip
-  Splicer.get_splicers Splicer.create_splicer.
+  Splicer.get_splicers Splicer.create_splicer
+  Scope.srun Options.cli_value.
